@@ -84,8 +84,9 @@ def run_case(case):
     base_o, base_span = _alone(expr, ts, latent)
     if base_o is None:
         return {"o": "base-empty", "skip": "stand-alone expression has no resolution", "nt": False}
+    # the RAW expression is embedded (not its normalised form): normalisation must act on it in context exactly as alone
     expr_n = m._preprocess_string(expr)
-    text = " ".join(list(pre) + [expr_n] + list(suf))
+    text = " ".join(list(pre) + [expr] + list(suf))
     norm = m._preprocess_string(text)
     # inert in context?
     off = len(" ".join(pre)) + 1 if pre else 0
@@ -94,10 +95,10 @@ def run_case(case):
     for w in pre:
         ranges.append((pos, pos + len(w)))
         pos += len(w) + 1
-    pos = off + len(expr_n) + 1
-    for w in suf:
-        ranges.append((pos, pos + len(w)))
-        pos += len(w) + 1
+    pos = len(norm)
+    for w in reversed(suf):
+        ranges.append((pos - len(w), pos))
+        pos -= len(w) + 1
     for rm in m._match_regex(norm, RU._regex):
         for a, b in ranges:
             if rm.mstart < b and rm.mend > a:
